@@ -35,16 +35,37 @@
   * `C09_signed_error_opt` — the same for requests the TSIG step rejects (NOTAUTH / FORMERR replies);
   * `C09_signed_answer_opt` — an authenticated request that a loaded zone answers: the octets before
     the TSIG record end with exactly that OPT record iff the scan reached an OPT.
-  Not proved (hence `_partial`): that the records which the *answering phase itself* puts into the
-  additional section are not of type 41 (they are the A/AAAA records of additional-section
-  processing, C06's subject — note that a zone may hold OPT-typed data, a known finding of C02, which
-  can appear in the answer section); hence `C09_full`, which counts the type-41 records of the decoded
-  additional section of *every* response, is proved for all responses without answer data and, for
-  answers, up to that one fact.  The differential check (audit tags `C09:*`) covers it.
+  On the independent decoding of the response — `C09_full`'s own terms (`Proofs/ServerSignedDecode`:
+  the final writer of every no-data response is reached from `Writer::new` by public calls, hence
+  satisfies the writer's invariant and content layout, and C12's `finish_decodes_content` applies):
+  * `C09_decoded_unsigned` — all three clauses of `C09_full` (count of type-41 records, owner / class /
+    version of the OPT, BADVERS: extended-RCODE octet 1 and no data) for every request whose verdict
+    the scan decides alone;
+  * `C09_decoded_signed_nodata`, `C09_decoded_signed_error` — the OPT clauses and "no answer / authority
+    data" for authenticated signed requests with a no-data verdict and for rejected signed requests;
+  * `C09_decoded_of_good` — the bridge for any response: it suffices that the writer handed to `finish`
+    is `Good` (writer invariant + content layout) with only address records of its own in the
+    additional section, and has its EDNS slot set iff the scan reached an OPT.
+  * `C09_decoded_answer`, `C09_decoded_signed_answer` — the OPT clauses for every response of the
+    *answering phase* (verdict `answer`, unsigned or authenticated): the final writer is `Good` with
+    the question and the records of the successful logged calls as its body
+    (`ServerContent.answer_final_good`, `signed_answer_final`, on top of
+    `ServerContent.clay_handleNonAxfrQueryL`: the induction over `handle_non_axfr_query` that ties the
+    ghost log to the writer's content layout, with the writer invariant and the hint contract at
+    every call, run along `Proofs/ServerQuery`), its own additional records are address records
+    (C05's `LogsT.inner`), and the answering phase keeps the EDNS payload size.
+  Not proved (hence `C09_full` is not stated as a theorem), precisely:
+  (1) the reply to a signed request whose TSIG record does not fit (TC / NOERROR without TSIG, C10 (e))
+      is not lifted to the decoding;
+  (2) the decoded theorems take the API's guarantees as hypotheses (`CfgWF cfg`: zones filed under
+      their apex, non-empty RRsets; server payload size a 16-bit value), which `C09_full` omits.
+  The differential check (audit tags `C09:*`) covers these.
 -/
 import QV.Proofs.ServerProps
 import QV.Proofs.ServerEcho
 import QV.Proofs.ServerSigned
+import QV.Proofs.ServerSignedDecode
+import QV.Proofs.ServerAnswerDecode
 
 namespace QV.C09
 open QV QV.Spec.Server QV.ServerScan
@@ -239,6 +260,221 @@ theorem C09_signed_answer_opt (cfg : Server.Cfg) (tr : Server.Transport) (now bu
   refine ⟨x, upper, ?_⟩
   rw [hx, Writer.optRecord_shape]
   simp [optRecordOctets]
+
+/-! ### on the independent decoding of the response (`C09_full`'s own terms) -/
+
+/-- the first two clauses of `C09_full` for one decoded response -/
+def OptClauses (payload : Nat) (edns : Bool) (d : Spec.DMsg) : Prop :=
+  ((d.ar.filter (fun r => r.ty = 41)).length = (if edns then 1 else 0)) ∧
+  (∀ o ∈ d.ar, o.ty = 41 → o.owner = [0] ∧ o.cls = payload ∧ o.rawTtl / 65536 % 256 = 0)
+
+/-- **the bridge**: whenever the writer handed to `finish` was reached from `Writer::new` by public
+    calls (`Good`: the writer's invariant and content layout, C12), its own additional records are
+    address records, and its EDNS slot is set — with the server's payload size and an extended-RCODE
+    octet — iff the scan reached an OPT: every decoding of the finished message satisfies the OPT
+    clauses, and the OPT's TTL is that octet shifted to the top. -/
+theorem C09_decoded_of_good (payload up : Nat) (hp16 : payload ≤ 65535) (hup : up < 256) (edns : Bool)
+    (F : Writer.State) (bd : Writer.Body) (hG : Good F bd) (hty : ∀ r ∈ bd.ar, r.ty = 1 ∨ r.ty = 28)
+    (he : F.edns = (if edns then some ⟨payload, up⟩ else none)) (b : Bytes) (mac : Option (List UInt8))
+    (hf : Writer.finish F Server.macFn = .ok (b, mac)) (d : Spec.DMsg) (hd : Spec.specDecodeMsg b = some d) :
+    OptClauses payload edns d ∧ (∀ o ∈ d.ar, o.ty = 41 → o.rawTtl / 16777216 = up) ∧
+    d.an.length = bd.an.length ∧ d.ns.length = bd.ns.length := by
+  obtain ⟨h1, h2, h3, h4⟩ := opt_of_good Server.macFn F bd hG hty b mac hf d hd
+  have hs : F.edns.isSome = edns := by rw [he]; cases edns <;> rfl
+  refine ⟨⟨by rw [h1, hs], fun o ho hot => ?_⟩, fun o ho hot => ?_, h3, h4⟩
+  · obtain ⟨e, hee, q1, q2, q3⟩ := h2 o ho hot
+    rw [he] at hee
+    cases edns with
+    | false => cases hee
+    | true =>
+      simp only [if_true, Option.some.injEq] at hee
+      subst hee
+      have e1 : ({ payload := payload, upper := up } : Writer.Edns).payload = payload := rfl
+      have e2 : ({ payload := payload, upper := up } : Writer.Edns).upper = up := rfl
+      rw [e1] at q2
+      rw [e2] at q3
+      exact ⟨q1, by rw [q2]; exact Nat.mod_eq_of_lt (by omega), by rw [q3]; omega⟩
+  · obtain ⟨e, hee, _, _, q3⟩ := h2 o ho hot
+    rw [he] at hee
+    cases edns with
+    | false => cases hee
+    | true =>
+      simp only [if_true, Option.some.injEq] at hee
+      subst hee
+      have e2 : ({ payload := payload, upper := up } : Writer.Edns).upper = up := rfl
+      rw [e2] at q3
+      rw [q3]; omega
+
+/-- **`C09_full` for every request whose verdict the scan decides alone** (FORMERR, BADVERS, NOTIMP,
+    REFUSED, SERVFAIL-not-loaded): all three clauses, on every independent decoding of the response -/
+theorem C09_decoded_unsigned (cfg : Server.Cfg) (tr : Server.Transport) (now bufLen : Nat) (req : Bytes)
+    (hbuf : minBuf tr cfg.payload ≤ bufLen) (hpay : 512 ≤ cfg.payload) (hp16 : cfg.payload ≤ 65535)
+    (hreq : req.size ≤ Rdata.USIZE_MAX)
+    (hr : (specScanWith (catKind cfg) cfg.payload req).respond = true)
+    (hv : noDataV (specScanWith (catKind cfg) cfg.payload req).verdict = true) :
+    ∀ b, Server.handleMessage cfg tr now bufLen req = .ok (some b) →
+      ∀ d, Spec.specDecodeMsg b = some d →
+        OptClauses cfg.payload (specScanWith (catKind cfg) cfg.payload req).edns d ∧
+        d.an = [] ∧ d.ns = [] ∧
+        ((specScanWith (catKind cfg) cfg.payload req).verdict = .badVers →
+          d.rcode = 0 ∧ ∀ o ∈ d.ar, o.ty = 41 → o.rawTtl / 16777216 = 1) := by
+  intro b hb d hd
+  have hbv0 : (specScanWith (catKind cfg) cfg.payload req).verdict = .badVers → d.rcode = 0 := by
+    intro hbv
+    obtain ⟨b2, hb2, hrc, _⟩ := C09_badvers cfg tr now bufLen req hbuf hpay hreq hr hbv
+    rw [hb] at hb2
+    simp only [Out.ok.injEq, Option.some.injEq] at hb2
+    subst hb2
+    show d.flags % 16 = 0
+    rw [decode_flags b d hd]; exact hrc
+  obtain ⟨F, b', mac, hb', hf, hG, _, he⟩ := unsigned_nodata_final cfg tr now bufLen req hbuf hpay hp16 hreq hr hv
+  rw [hb] at hb'
+  simp only [Out.ok.injEq, Option.some.injEq] at hb'
+  subst hb'
+  obtain ⟨hq1, hq2, hq3⟩ := qBody_norecs (specScanWith (catKind cfg) cfg.payload req).question
+  have hup : (verdictRcode (specScanWith (catKind cfg) cfg.payload req).verdict).2 < 256 := by
+    cases (specScanWith (catKind cfg) cfg.payload req).verdict <;> simp [verdictRcode]
+  obtain ⟨c1, c2, c3, c4⟩ := C09_decoded_of_good cfg.payload _ hp16 hup _ F _ hG (by rw [hq3]; simp) he b mac hf d hd
+  rw [hq1] at c3
+  rw [hq2] at c4
+  refine ⟨c1, List.length_eq_zero_iff.mp c3, List.length_eq_zero_iff.mp c4, fun hbv => ⟨hbv0 hbv, fun o ho hot => ?_⟩⟩
+  rw [c2 o ho hot, hbv]; rfl
+
+/-- **`C09_full`'s OPT clauses for authenticated signed requests with a no-data verdict** -/
+theorem C09_decoded_signed_nodata (cfg : Server.Cfg) (tr : Server.Transport) (now bufLen : Nat) (req : Bytes)
+    (hbuf : minBuf tr cfg.payload ≤ bufLen) (hpay : 512 ≤ cfg.payload) (hp16 : cfg.payload ≤ 65535)
+    (hreq : req.size ≤ Rdata.USIZE_MAX)
+    (hr : (specScanWith (catKind cfg) cfg.payload req).respond = true)
+    (hv : (specScanWith (catKind cfg) cfg.payload req).verdict = .tsigReached) :
+    ∃ (t : Tsig.ReadTsigRr) (mw : Bytes) (r' : Reader.Reader), r'.octets = req ∧ r'.cursor ≤ req.size ∧
+      ∀ r'' S, Server.tsigAfter cfg now t mw r' (preTsigState cfg tr bufLen req) = (.ok (some r''), S) →
+      ∀ v, (v = Verdict.formErr ∨ v = .notImp ∨ v = .refused ∨ v = .servFailZone) →
+        endVerdict (catKind cfg) req.size (specScanWith (catKind cfg) cfg.payload req).question
+          r'.cursor ((req.getD 2 0).toNat / 8 % 16) = v →
+      ∀ b, Server.handleMessage cfg tr now bufLen req = .ok (some b) →
+        ∀ d, Spec.specDecodeMsg b = some d →
+          OptClauses cfg.payload (specScanWith (catKind cfg) cfg.payload req).edns d ∧ d.an = [] ∧ d.ns = [] := by
+  obtain ⟨t, mw, r', h1, h2, h3⟩ := signed_nodata_final cfg tr now bufLen req hbuf hpay hp16 hreq hr hv
+  refine ⟨t, mw, r', h1, h2, fun r'' S hT v hvv hev b hb d hd => ?_⟩
+  obtain ⟨nowT, alg, key, kn, F, mac, _, _, _, _, _, hf, hG, _, he, _⟩ := h3 r'' S hT v hvv hev b hb
+  obtain ⟨hq1, hq2, hq3⟩ := qBody_norecs (specScanWith (catKind cfg) cfg.payload req).question
+  obtain ⟨c1, _, c3, c4⟩ := C09_decoded_of_good cfg.payload 0 hp16 (by omega) _ F _ hG (by rw [hq3]; simp) he b mac hf d hd
+  rw [hq1] at c3
+  rw [hq2] at c4
+  exact ⟨c1, List.length_eq_zero_iff.mp c3, List.length_eq_zero_iff.mp c4⟩
+
+/-- **`C09_full`'s OPT clauses for signed requests that the TSIG step rejects** (reply TSIG fits) -/
+theorem C09_decoded_signed_error (cfg : Server.Cfg) (tr : Server.Transport) (now bufLen : Nat) (req : Bytes)
+    (hbuf : minBuf tr cfg.payload ≤ bufLen) (hpay : 512 ≤ cfg.payload) (hp16 : cfg.payload ≤ 65535)
+    (hreq : req.size ≤ Rdata.USIZE_MAX)
+    (hr : (specScanWith (catKind cfg) cfg.payload req).respond = true)
+    (hv : (specScanWith (catKind cfg) cfg.payload req).verdict = .tsigReached) :
+    ∃ (t : Tsig.ReadTsigRr) (mw : Bytes) (r' : Reader.Reader), r'.octets = req ∧ r'.cursor ≤ req.size ∧
+      ∀ nowT kn an rc mode rr, Tsig.TimeSigned.tryFromUnix now = some nowT →
+        Writer.WName.parse t.keyName = some (kn, []) → Writer.WName.parse t.algorithm = some (an, []) →
+        tsigStopReply Tsig.realHmac cfg.keys nowT t mw.toList kn an = some (rc, mode, rr) →
+        ServerTsig.TsigFits (preTsigState cfg tr bufLen req) mode rr →
+        ∀ b, Server.handleMessage cfg tr now bufLen req = .ok (some b) →
+          ∀ d, Spec.specDecodeMsg b = some d →
+            OptClauses cfg.payload (specScanWith (catKind cfg) cfg.payload req).edns d ∧ d.an = [] ∧ d.ns = [] := by
+  obtain ⟨t, mw, r', h1, h2, h3⟩ := signed_error_final cfg tr now bufLen req hbuf hpay hp16 hreq hr hv
+  refine ⟨t, mw, r', h1, h2, fun nowT kn an rc mode rr hnow hkn han hrep hfit b hb d hd => ?_⟩
+  obtain ⟨F, mac, hf, hG, _, he, _⟩ := h3 nowT kn an rc mode rr hnow hkn han hrep hfit b hb
+  obtain ⟨hq1, hq2, hq3⟩ := qBody_norecs (specScanWith (catKind cfg) cfg.payload req).question
+  obtain ⟨c1, _, c3, c4⟩ := C09_decoded_of_good cfg.payload 0 hp16 (by omega) _ F _ hG (by rw [hq3]; simp) he b mac hf d hd
+  rw [hq1] at c3
+  rw [hq2] at c4
+  exact ⟨c1, List.length_eq_zero_iff.mp c3, List.length_eq_zero_iff.mp c4⟩
+
+/-- the bridge again, for writers whose EDNS slot is known up to the extended-RCODE octet (the
+    answering phase resets it with every `set_rcode`): the OPT clauses of `C09_full` need the
+    payload size only — the version octet of the OPT's TTL is 0 whatever that octet is -/
+theorem C09_optClauses_of_good (payload : Nat) (hp16 : payload ≤ 65535) (edns : Bool)
+    (F : Writer.State) (bd : Writer.Body) (hG : Good F bd) (hty : ∀ r ∈ bd.ar, r.ty = 1 ∨ r.ty = 28)
+    (he : F.edns.map (·.payload) = (if edns then some payload else none)) (b : Bytes) (mac : Option (List UInt8))
+    (hf : Writer.finish F Server.macFn = .ok (b, mac)) (d : Spec.DMsg) (hd : Spec.specDecodeMsg b = some d) :
+    OptClauses payload edns d ∧ d.an.length = bd.an.length ∧ d.ns.length = bd.ns.length := by
+  obtain ⟨c1, c2, c3, c4⟩ := opt_of_good Server.macFn F bd hG hty b mac hf d hd
+  have hs : F.edns.isSome = edns := by
+    cases edns <;> cases hw : F.edns <;> rw [hw] at he <;> simp at he ⊢
+  refine ⟨⟨by rw [c1, hs], fun o ho hot => ?_⟩, c3, c4⟩
+  obtain ⟨ed, hed, q1, q2, q3⟩ := c2 o ho hot
+  rw [hed] at he
+  cases edns with
+  | false => simp at he
+  | true =>
+    simp only [if_true, Option.map_some, Option.some.injEq] at he
+    refine ⟨q1, by rw [q2, he]; exact Nat.mod_eq_of_lt (by omega), ?_⟩
+    rw [q3]; omega
+
+/-- **`C09_full`'s OPT clauses for every response that a loaded zone produces** (verdict `answer`:
+    answers, CNAME chains, referrals, negative answers, SERVFAIL and truncation epilogues), on every
+    independent decoding of the response.  The final writer is `Good` with the question and the
+    records of the successful calls of the answering phase as its body
+    (`ServerContent.answer_final_good`: the induction over `handle_non_axfr_query` that ties the ghost
+    log to the writer's content layout), its own additional records are address records, and the
+    answering phase keeps the EDNS payload (`hwc_answer_slot`). -/
+theorem C09_decoded_answer (cfg : Server.Cfg) (hcfg : ServerSafety.CfgWF cfg) (tr : Server.Transport)
+    (now bufLen : Nat) (req : Bytes)
+    (hbuf : minBuf tr cfg.payload ≤ bufLen) (hpay : 512 ≤ cfg.payload) (hp16 : cfg.payload ≤ 65535)
+    (hreq : req.size ≤ Rdata.USIZE_MAX)
+    (hv : (specScanWith (catKind cfg) cfg.payload req).verdict = .answer) :
+    ∀ b, Server.handleMessage cfg tr now bufLen req = .ok (some b) →
+      ∀ d, Spec.specDecodeMsg b = some d →
+        OptClauses cfg.payload (specScanWith (catKind cfg) cfg.payload req).edns d := by
+  intro b h d hd
+  have h12 : 12 ≤ req.size := by
+    by_cases hc : req.size < 12
+    · rw [handleMessage_short cfg tr now bufLen req hbuf hc] at h; cases h
+    · omega
+  have hqr : (req.getD 2 0).toNat < 128 := by
+    by_cases hc : (req.getD 2 0).toNat ≥ 128
+    · rw [handleMessage_qr cfg tr now bufLen req hbuf h12 hc] at h; cases h
+    · omega
+  rw [specScanWith_eq] at hv ⊢
+  simp only [show ¬ req.size < 12 by omega, show ¬ (req.getD 2 0).toNat ≥ 128 by omega, if_false] at hv ⊢
+  obtain ⟨_, he⟩ := hwc_answer_slot cfg tr now bufLen req hbuf hpay h12 hreq (Spec.Server.hdr req 0)
+    (((req.getD 2 0).toNat &&& 120) >>> 3) (((req.getD 2 0).toNat &&& 1) != 0) hv
+  obtain ⟨bd, hG, _, hty⟩ := ServerContent.answer_final_good cfg hcfg tr now bufLen req hbuf hpay hp16 h12 hreq
+    (Spec.Server.hdr req 0) (((req.getD 2 0).toNat &&& 120) >>> 3) (((req.getD 2 0).toNat &&& 1) != 0) hv
+  rw [handleMessage_eq cfg tr now bufLen req hbuf hpay h12 hqr] at h
+  rcases hh : Server.handleWithContext cfg tr now ⟨req, 12, none⟩
+      (hdrSt (w0 bufLen (lim0 tr)) (Spec.Server.hdr req 0) (((req.getD 2 0).toNat &&& 120) >>> 3)
+        (((req.getD 2 0).toNat &&& 1) != 0)) with ⟨(bb | e | _), w1⟩
+  · rw [hh] at h he hG
+    simp only at he hG
+    cases bb with
+    | false => simp only at h; cases h
+    | true =>
+      simp only at h
+      rcases hf : Writer.finish w1 Server.macFn with ⟨bytes, mac⟩ | e | _
+      · rw [hf] at h
+        simp only [Out.ok.injEq, Option.some.injEq] at h
+        subst h
+        exact (C09_optClauses_of_good cfg.payload hp16 _ w1 bd hG hty he bytes mac hf d hd).1
+      · rw [hf] at h; cases h
+      · rw [hf] at h; cases h
+  · rw [hh] at h; cases h
+  · rw [hh] at h; cases h
+
+/-- **`C09_full`'s OPT clauses for authenticated signed requests that a loaded zone answers** -/
+theorem C09_decoded_signed_answer (cfg : Server.Cfg) (hcfg : ServerSafety.CfgWF cfg) (tr : Server.Transport)
+    (now bufLen : Nat) (req : Bytes)
+    (hbuf : minBuf tr cfg.payload ≤ bufLen) (hpay : 512 ≤ cfg.payload) (hp16 : cfg.payload ≤ 65535)
+    (hreq : req.size ≤ Rdata.USIZE_MAX)
+    (hr : (specScanWith (catKind cfg) cfg.payload req).respond = true)
+    (hv : (specScanWith (catKind cfg) cfg.payload req).verdict = .tsigReached) :
+    ∃ (t : Tsig.ReadTsigRr) (mw : Bytes) (r' : Reader.Reader), r'.octets = req ∧ r'.cursor ≤ req.size ∧
+      ∀ r'' S, Server.tsigAfter cfg now t mw r' (preTsigState cfg tr bufLen req) = (.ok (some r''), S) →
+        endVerdict (catKind cfg) req.size (specScanWith (catKind cfg) cfg.payload req).question
+          r'.cursor ((req.getD 2 0).toNat / 8 % 16) = .answer →
+      ∀ b, Server.handleMessage cfg tr now bufLen req = .ok (some b) →
+        ∀ d, Spec.specDecodeMsg b = some d →
+          OptClauses cfg.payload (specScanWith (catKind cfg) cfg.payload req).edns d := by
+  obtain ⟨t, mw, r', h1, h2, h3⟩ := ServerContent.signed_answer_final cfg hcfg tr now bufLen req hbuf hpay hp16 hreq hr hv
+  refine ⟨t, mw, r', h1, h2, fun r'' S hT hev b hb d hd => ?_⟩
+  obtain ⟨nowT, alg, key, kn, F, mac, bd, _, _, _, _, _, hf, hG, _, hty, _, he⟩ := h3 r'' S hT hev b hb
+  exact (C09_optClauses_of_good cfg.payload hp16 _ F bd hG hty he b mac hf d hd).1
 
 /-! ### the decision at an OPT record (spec level) -/
 
